@@ -351,6 +351,21 @@ def slow_store_run(scn, binary, root):
     return obs, dump, list(host.attest_checks)
 
 
+def canon_order(ev):
+    """what the order comparison looks at: requests, create / bytes written / rename of key files, and
+    "the key file <g>.key is looked up" -- any run of exists / open / read calls on the same final file is
+    ONE look-up, however the code spells it (exists()+read_to_string, File::open alone, a second metadata call)"""
+    out = []
+    for e in ev:
+        e = [20, e[1]] if e[0] in (20, 30, 31) else list(e)
+        if e[0] == 20 and e[1].endswith(".key") is False:
+            continue
+        if out and e[0] == 20 and out[-1] == e:
+            continue
+        out.append(e)
+    return out
+
+
 def prop_order(ev):
     """"the agent never attests a key it has not first stored and read back identically" on the observed call order"""
     for i, e in enumerate(ev):
@@ -613,11 +628,11 @@ def run(ctx):
     for si, s in enumerate(scns):
         ev = orders[si]
         # model order vs system-call order (opens / reads of a key file are folded into its look-up)
-        i_sk = [e for e in ev if e[0] not in (30, 31)]
-        if i_sk != skeletons[s["name"]]:
+        i_sk = canon_order(ev)
+        if i_sk != canon_order(skeletons[s["name"]]):
             disagreements.append({"case": {"scenario": s["name"], "order_of_calls": True}, "model": skeletons[s["name"]], "impl": i_sk})
         if si == 0:
-            order_sample = {"scenario": s["name"], "observed_call_order": i_sk, "model_order": skeletons[s["name"]]}
+            order_sample = {"scenario": s["name"], "observed_call_order": i_sk, "model_order": canon_order(skeletons[s["name"]])}
         why = prop_order(ev)
         if why:
             failures.append({"case": {"scenario": s["name"], "_replay": "tools/vp check C08 (un-killed run of this scenario under strace -y)"},
